@@ -46,6 +46,20 @@ def sources(body, op, depth=0, seen=None):
     ds = body.defs().get(base, [])
     if not ds:
         return {("?",)}
+    # `_t.i` of a tuple built in this body: only the i-th component flows (pattern `let (a, b) = (x, y)`)
+    pj = place_proj(rp)
+    if pj and pj[0][0] == "f" and pj[0][3] == "tuple" and all(si != "t" and body.blocks[bi]["s"][si]["rv"]["k"] == "agg"
+                                                              and body.blocks[bi]["s"][si]["rv"].get("agg") == "tuple" for bi, si in ds):
+        for bi, si in ds:
+            ops = body.blocks[bi]["s"][si]["rv"]["ops"]
+            if pj[0][1] < len(ops):
+                o = ops[pj[0][1]]
+                q = op_place(o)
+                if q is None:
+                    out |= sources(body, o, depth + 1, seen)
+                else:
+                    out |= sources(body, {"c": {"l": q["l"], "p": list(place_proj(q)) + list(pj[1:])}}, depth + 1, seen)
+        return out
     for bi, si in ds:
         if si == "t":
             t = body.blocks[bi]["t"]
